@@ -13,7 +13,8 @@ Oracle per run (vf/c06_run.judge):
 Workload: (1) every shipped schema (data/*/*.exp, test/unitary_schemas, test/buggy) x 4 tools; (2) generated valid schemas
 (vf/gen_schema data schemas + vf/c06_gen.Rich algorithmic schemas); (3) token-level (delete / duplicate / swap / keyword) and
 byte-level (NUL, 0x80-0xFF, no final newline, truncation, bit flip, punctuation insert) mutants of small valid schemas;
-(4) pathological shapes and option values (vf/c06_shapes).
+(4) pathological shapes and option values (vf/c06_shapes) and a deterministic grid of classified identifier replacements
+(vf/c06_gen.ident_grid).
 
 Keys: `<mutation operator or shape> x <construct it hit>|<tool>|<symptom>`.
 Open findings: the randomized workload (2)(3) stays out of the sub-space where an open finding triggers (MASKS below: a
@@ -84,11 +85,37 @@ _AS_RENAME = re.compile(rb'\b(?:USE|REFERENCE)\s+FROM\b[^;]*\bAS\b', re.I)
 _SUPER_SELF = re.compile(rb'\bSUPERTYPE\s+OF\s*\([^;]*\bSELF\b', re.I)
 _UNIQUE_QUAL = re.compile(rb'\bUNIQUE\b(?:(?!END_ENTITY)[^\\])*\\[^;]*;\s*(?!END_ENTITY|WHERE)\S', re.I)
 
+_INCLUDE = re.compile(rb"\bINCLUDE\s*'", re.I)
+_NVL = re.compile(rb'\bNVL\s*\(', re.I)
+
+
+def _nvl_wrong_count(d):
+    """Some NVL( ... ) call does not have exactly two top-level arguments."""
+    for m in _NVL.finditer(d):
+        depth, commas, i, empty = 1, 0, m.end(), True
+        while i < len(d) and depth:
+            c = d[i:i + 1]
+            if c in b'([{':
+                depth += 1
+            elif c in b')]}':
+                depth -= 1
+            elif c == b',' and depth == 1:
+                commas += 1
+            if depth and not c.isspace():
+                empty = False
+            i += 1
+        if depth or commas != 1 or empty:
+            return True
+    return False
+
+
 MASKS = (
     ('token cut by end of file', lambda d, tool: _ends_in_open_token(d)),
     ('tail remark of 255 chars or more x after semicolon', lambda d, tool: bool(_LONG_TAIL.search(d))),
     ('SELF in a SUPERTYPE OF expression', lambda d, tool: bool(_SUPER_SELF.search(d))),
     ('UNIQUE rule on SELF\\super.attr followed by a plain attribute rule', lambda d, tool: bool(_UNIQUE_QUAL.search(d))),
+    ('NVL with other than two arguments', lambda d, tool: _nvl_wrong_count(d)),
+    ('INCLUDE directive', lambda d, tool: bool(_INCLUDE.search(d))),
     ('REPEAT without control (exp2python)', lambda d, tool: tool == 'exp2python' and bool(_BARE_REPEAT.search(d))),
     ('interface item renamed with AS (exp2python)', lambda d, tool: tool == 'exp2python' and bool(_AS_RENAME.search(d))),
 )
@@ -142,6 +169,17 @@ def main(chk):
         for tool in tools:
             cases.append(R.Case(text, tool, label, cons, args=args, note='shape', cls=name))
     chk.count('shapes', len(shapes))
+
+    # (4b) classified identifier replacement: fixed base, every kind of name at every kind of site replaced by every other kind
+    # (deterministic; the random token operators do not replace identifiers, so look-ups that fail or find the wrong kind of
+    # object are exercised here and their open findings have seed-independent keys)
+    gbase, grid = G.ident_grid(1 if quick else 3)
+    for tool in R.TOOLS:
+        cases.append(R.Case(gbase, tool, 'unchanged input', 'identifier grid base schema', note='grid'))
+    for text, site, rk, ctx in grid:
+        for tool in R.TOOLS:
+            cases.append(R.Case(text, tool, 'identifier replaced', '%s by %s' % (site, rk), note='grid', cls='in ' + ctx))
+    chk.count('identifier_grid_mutants', len(grid))
 
     # (2) generated valid schemas
     n_data, n_rich = (12, 16) if quick else (200, 400)
